@@ -9,6 +9,7 @@ results must agree.
 """
 from __future__ import annotations
 
+import random
 import typing as t
 
 from checks import common, drive, offline, plan as P
@@ -233,7 +234,8 @@ class C17(common.Check):
             "GKDI port, padding policy, header signing, envelope shape (L2 omitted at 31), DC clock skew, PRNG segmentation and latencies, "
             "DNS discovery, security context (StubCtx 1..3 legs / real NTLM / real Negotiate). Each plan runs once per flavour; request log, "
             "results and sync-vs-async transcripts are judged; in 30% of the plans the async execution runs all operations at once (the "
-            "conversations then interleave under the PRNG scheduler and are compared per connection). Non-trivial = every plan; distinct = distinct plan.")
+            "conversations then interleave under the PRNG scheduler and are compared per connection) and a third execution runs them as "
+            "caller threads using the sync API, pre-empted at PRNG-chosen line events inside dpapi_ng. Non-trivial = every plan; distinct = distinct plan.")
     components = {"client": "real (public API both flavours, RPC client, AuthenticationProvider, all codecs)",
                   "DC": "model (RefDC: EPM + GKDI, independent codecs and key derivation)",
                   "security context": "stub (StubCtx) in ~70% of plans, real pyspnego NTLM / Negotiate->NTLM initiator+acceptor in ~30%",
@@ -241,7 +243,7 @@ class C17(common.Check):
     assumptions = ["Kerberos is not simulated", "loopback TCP of the statement is replaced by the simulated transport",
                    "ept_map max_towers / handle / referent ids and alloc_hint are recorded, not judged"]
     required_fired = ("unprotect_ok", "protect_seed", "protect_public", "future_key", "non_member_unprotect", "dns", "real_ctx", "l2_omitted",
-                      "pos_corner", "prev_l0", "blob_pub", "concurrent_ops")
+                      "pos_corner", "prev_l0", "blob_pub", "concurrent_ops", "thread_ops", "thread_overlap")
 
     def cases(self, tier, seed):
         rng = prng.stream(seed, "C17")
@@ -265,6 +267,33 @@ class C17(common.Check):
                 probes[k] = probes.get(k, 0) + val
             if v and not viol:
                 viol = v
+        if conc and not viol:
+            # the same operations once more as caller threads of one process using the sync API (fresh cache each): simworld.threads
+            # decides every pre-emption at line events inside dpapi_ng; per-connection conversations must equal the sequential ones
+            r = random.Random(case["seed"] ^ 0x7EAD)
+            pol = {"mode": "prob", "p": r.choice((0.003, 0.03, 0.3))} if r.random() < 0.5 else {"mode": "points", "n": r.choice((1, 2, 4)), "horizon": r.choice((500, 5000, 30000))}
+            plan = dict(case, ops=[dict(o, fl="thread", group=1) if "fl" in o else o for o in case["ops"]], threads=case.get("threads") or pol, _concurrent_now=True)
+            tr = P.execute_plan(plan)
+            traces["thread"] = tr
+            v, pr = judge_one(plan, tr, "thread")
+            probes["thread_ops"] = pr.get("concurrent_ops", 0)
+            probes["thread_overlap"] = tr.world.stats.get("toverlap", 0)
+            if v:
+                viol = v
+            else:
+                with_tokens = case["ctx"]["kind"] == "stub"
+                ta, tb = _transcript(traces["sync"], with_tokens, True), _transcript(tr, with_tokens, True)
+                if ta != tb:
+                    k = next((i for i, (x, y) in enumerate(zip(ta, tb)) if x != y), min(len(ta), len(tb)))
+                    viol = common.violation("C17", "flavour-equivalence", "sync-vs-threads", "transcript", "", "",
+                                            f"conversation #{k} differs: sequential={str(ta[k] if k < len(ta) else None)[:300]} threads={str(tb[k] if k < len(tb) else None)[:300]}")
+                else:
+                    for oa, ob in zip(traces["sync"].ops, tr.ops):
+                        if oa.outcome.kind != ob.outcome.kind or (oa.outcome.kind == "raise" and type(oa.outcome.exc) is not type(ob.outcome.exc)) or \
+                                (oa.op["op"] == "unprotect" and oa.outcome.kind == "ok" and oa.outcome.value != ob.outcome.value):
+                            viol = common.violation("C17", "flavour-equivalence", "sync-vs-threads", "outcome", "", "",
+                                                    f"op {oa.idx}: sequential {oa.outcome.brief()} vs in a thread {ob.outcome.brief()} {ob.outcome.exc!r}")
+                            break
         if not viol:
             a, b_ = traces["sync"], traces["async"]
             with_tokens = case["ctx"]["kind"] == "stub"
@@ -285,9 +314,10 @@ class C17(common.Check):
         if case["ctx"]["kind"] != "stub":
             probes["real_ctx"] = 1
         w = traces["async"].world
-        return {"viol": viol, "digest": traces["sync"].world.digest() + w.digest(), "key": common.key_hash(case),
+        return {"viol": viol, "digest": traces["sync"].world.digest() + w.digest() + (traces["thread"].world.digest() if "thread" in traces else ""), "key": common.key_hash(case),
                 "sched_key": common.key_hash(traces["async"].schedule) if traces["async"].schedule else None,
                 "fired": {"seg": w.stats.get("seg", 0) + traces["sync"].world.stats.get("seg", 0), "choice_points": w.stats.get("choice_points", 0),
+                          "thread_preemptions": traces["thread"].world.stats.get("tswitch", 0) if "thread" in traces else 0,
                           "clk_skew": int(bool(case["dc"]["skew_ticks"]))},
                 "probes": probes, "vtime_ns": w.stats.get("vtime_ns", 0)}
 
@@ -302,6 +332,13 @@ class C17(common.Check):
             yield dict(case, use_dns=False)
         if case["ctx"]["kind"] != "stub" or case["ctx"].get("legs") != 2:
             yield dict(case, ctx={"kind": "stub", "legs": 2, "sig": 16})
+        if case.get("concurrent"):
+            tplan = dict(case, ops=[dict(o, fl="thread", group=1) if "fl" in o else o for o in case["ops"]])
+            if not case.get("thread_scripts") and not case.get("threads"):
+                r = random.Random(case["seed"] ^ 0x7EAD)
+                tplan["threads"] = {"mode": "prob", "p": r.choice((0.003, 0.03, 0.3))} if r.random() < 0.5 else {"mode": "points", "n": r.choice((1, 2, 4)), "horizon": r.choice((500, 5000, 30000))}
+            for cand in P.thread_shrinks(tplan):
+                yield dict(case, thread_scripts=cand["thread_scripts"])
         dc = case["dc"]
         for k, simple in (("skew_ticks", 0), ("pad_mode", "min16"), ("header_sign", True), ("omit_l2_at_31", False), ("domain", "domain.test"), ("forest", "domain.test")):
             if dc.get(k) != simple:
